@@ -163,6 +163,12 @@ func run(t *testing.T, cs Case) *ev.Verdict {
 	v.Canon = string(canon)
 	c, berr := sched.Run(t, parkPoints, cs.Sched, func(c *sched.Ctl) { c.MaxSteps = 8000; body(c, cs, v) })
 	v.Trace = c.Trace()
+	if c.Prio {
+		v.Class("priority-schedule")
+	}
+	if c.Mix {
+		v.Class("uniform-decisions")
+	}
 	if c.StepLimit && len(v.Viol) == 0 {
 		// who keeps taking sections without blocking?
 		tail := v.Trace
